@@ -204,6 +204,106 @@ def _parses_literally(regex_text: str, want: str, first_unit: str, last_unit: st
     return None
 
 
+STR_EDITS = {"strip", "lstrip", "rstrip", "replace", "lower", "upper", "title", "casefold", "capitalize", "swapcase", "expandtabs",
+             "translate", "format", "removeprefix", "removesuffix", "zfill", "center", "ljust", "rjust", "encode", "splitlines", "split", "rsplit",
+             "partition", "rpartition"}
+
+
+def _pattern_text_edits(fn) -> T.Optional[T.List[T.Tuple[ast.Call, str]]]:
+    """Calls in fn that transform a string taken from raw_cfg['file_patterns'] (flow-insensitive taint from the
+    subscript / .get('file_patterns') / a RawPatternsByFile parameter).  None: fn does not handle file_patterns."""
+    def seed(e: ast.AST) -> bool:
+        if isinstance(e, ast.Subscript) and const_str(e.slice) == "file_patterns":
+            return True
+        if isinstance(e, ast.Call) and isinstance(e.func, ast.Attribute) and e.func.attr in ("get", "pop", "setdefault") and e.args and const_str(e.args[0]) == "file_patterns":
+            return True
+        return False
+    names: T.Set[str] = set()
+    for a in fn.node.args.args + fn.node.args.kwonlyargs:
+        if a.annotation is not None and ("RawPatternsByFile" in unparse(a.annotation) or "FileRawPatternsItem" in unparse(a.annotation)):
+            names.add(a.arg)
+    def tainted(e: ast.AST, local: T.Set[str]) -> bool:
+        if seed(e):
+            return True
+        if isinstance(e, ast.Name):
+            return e.id in local
+        if isinstance(e, (ast.ListComp, ast.SetComp, ast.GeneratorExp, ast.DictComp)):
+            loc2 = set(local)
+            for g in e.generators:
+                if tainted(g.iter, loc2):
+                    loc2 |= {x.id for x in ast.walk(g.target) if isinstance(x, ast.Name)}
+            elts = [e.elt] if not isinstance(e, ast.DictComp) else [e.key, e.value]
+            return any(tainted(x, loc2) for x in elts)
+        return any(tainted(c, local) for c in ast.iter_child_nodes(e))
+    handles = bool(names) or any(seed(n) for n in ast.walk(fn.node))
+    if not handles:
+        return None
+    changed = True
+    while changed:
+        changed = False
+        for n in walk_no_nested(fn.node):
+            tgts: T.List[ast.AST] = []
+            val: T.Optional[ast.AST] = None
+            if isinstance(n, ast.Assign):
+                tgts, val = list(n.targets), n.value
+            elif isinstance(n, ast.AnnAssign) and n.value is not None:
+                tgts, val = [n.target], n.value
+            elif isinstance(n, (ast.For, ast.comprehension)):
+                tgts, val = [n.target], n.iter
+            elif isinstance(n, ast.NamedExpr):
+                tgts, val = [n.target], n.value
+            if val is None or not tainted(val, names):
+                continue
+            for t in tgts:
+                if isinstance(t, ast.Tuple) and len(t.elts) == 2 and isinstance(val, ast.Call) and isinstance(val.func, ast.Attribute) and val.func.attr == "items":
+                    t = t.elts[1]          # `for path, patterns in X.items()`: the key is a file path, not pattern text
+                for x in ast.walk(t):
+                    if isinstance(x, ast.Name) and x.id not in names:
+                        names.add(x.id)
+                        changed = True
+    out: T.List[T.Tuple[ast.Call, str]] = []
+    # comprehension variables: evaluate with the comprehension's own scope
+    def scan(e: ast.AST, local: T.Set[str]) -> None:
+        if isinstance(e, (ast.ListComp, ast.SetComp, ast.GeneratorExp, ast.DictComp)):
+            loc2 = set(local)
+            for g in e.generators:
+                scan(g.iter, loc2)
+                if tainted(g.iter, loc2):
+                    loc2 |= {x.id for x in ast.walk(g.target) if isinstance(x, ast.Name)}
+                for c in g.ifs:
+                    scan(c, loc2)
+            for x in ([e.elt] if not isinstance(e, ast.DictComp) else [e.key, e.value]):
+                scan(x, loc2)
+            return
+        if isinstance(e, ast.Call):
+            if isinstance(e.func, ast.Attribute) and e.func.attr in STR_EDITS and tainted(e.func.value, local):
+                out.append((e, f"`.{e.func.attr}()` is applied to a configured search pattern"))
+            elif unparse(e.func) in ("re.sub", "re.subn") and any(tainted(a, local) for a in e.args[2:3]):
+                out.append((e, "`re.sub` is applied to a configured search pattern"))
+        for c in ast.iter_child_nodes(e):
+            scan(c, local)
+    scan(fn.node, names)
+    # a test such as `if p.strip()` does not change the text: keep only calls whose value is stored, returned, yielded or passed on
+    parents: T.Dict[int, ast.AST] = {}
+    for n in ast.walk(fn.node):
+        for c in ast.iter_child_nodes(n):
+            parents[id(c)] = n
+    def is_test_only(call: ast.Call) -> bool:
+        cur: ast.AST = call
+        while id(cur) in parents:
+            par = parents[id(cur)]
+            if isinstance(par, (ast.If, ast.While, ast.IfExp, ast.Assert)) and par.test is cur:
+                return True
+            if isinstance(par, ast.comprehension) and cur in par.ifs:
+                return True
+            if isinstance(par, (ast.BoolOp, ast.UnaryOp, ast.Compare)):
+                cur = par
+                continue
+            return False
+        return False
+    return [(c, w) for c, w in out if not is_test_only(c)]
+
+
 def run(ctx) -> None:
     prog = ctx.prog
     ctx.rule("R1", "every literal string (chars in 4 contexts, all pairs; thorough: triples) compiles to its own literal text")
@@ -341,3 +441,27 @@ def run(ctx) -> None:
               "config._ConfigParser enables %-interpolation: '%' in a setup.cfg search pattern is not matched literally",
               f"bases {cp.bases}; a pattern such as `%define ver {{version}}` raises InterpolationSyntaxError, `100%% {{version}}` loses a '%'", loc="src/bumpver/config.py",
               witness={"setup.cfg pattern": "progress 100%% v{version}"})
+
+    # TOML: the strings of file_patterns are exact (the format has its own quoting), so nothing between toml.load and
+    # the pattern compiler may edit them
+    effects = ctx.effects
+    toml_path = effects.reachable_functions(["config._parse_toml", "config._parse_config"])
+    ini_only = effects.reachable_functions(["config._parse_cfg"]) - toml_path
+    n_fn = 0
+    for fq in sorted(toml_path):
+        if not fq.startswith("config."):
+            continue
+        fn = prog.function(fq)
+        hits = _pattern_text_edits(fn)
+        if hits is None:
+            continue
+        n_fn += 1
+        ctx.visit(fq)
+        for call, why in hits:
+            ctx.bad("R6", f"{fq}: file_patterns text of a TOML config is edited before it is compiled (`{unparse(call)[:60]}`)",
+                    f"{why}; blanks or other literal characters at the edge of a pattern no longer match themselves", loc=fn.loc(call),
+                    witness={"pyproject.toml pattern": '"  version = {version}"'}, what=f"{fq}: pattern strings pass through unedited")
+        if not hits:
+            ctx.ok("R6", f"{fq}: pattern strings pass through unedited")
+    ctx.floor("R6", "functions on the TOML path that handle file_patterns", n_fn, 3)
+    ctx.observe(f"INI-only functions (may normalise the multi-line INI value): {sorted(ini_only)}")
